@@ -59,7 +59,7 @@ pub open spec fn rows_ext(rows: Seq<Seq<AdjacentNode>>, n: nat) -> Seq<Seq<Adjac
     ensures
         // [C03.adjvec.frame_other_rows]
         final(adjacency_vec).len() == old(adjacency_vec).len(),
-        forall|i: int| 0 <= i < old(adjacency_vec).len() && i != u_node_index ==> final(adjacency_vec)[i] == old(adjacency_vec)[i],
+        forall|i: int| 0 <= i < old(adjacency_vec).len() && i != u_node_index ==> #[trigger] final(adjacency_vec)[i] == old(adjacency_vec)[i],
         // [C03.adjvec.new_pair_appended]
         !edge_already_exists ==> final(adjacency_vec)[u_node_index as int]@ == old(adjacency_vec)[u_node_index as int]@.push(AdjacentNode { node_index: v_node_index, weight: weight }),
         // [C03.adjvec.existing_pair_min_or_replace]
